@@ -78,7 +78,10 @@ def make_scratch(root, patches=("anyhow", "hmac", "aes-gcm"), with_contracts=Tru
                 raise LostAnchor("file %s is gone" % f)
             lines = open(p).read().split("\n")
             for anchor, attrs in items:
-                hits = [i for i, l in enumerate(lines) if l.strip() == anchor]
+                # anchors are matched as a prefix of the stripped line (e.g. `fn estimate_roc(`), so a
+                # changed parameter list or return type does not lose the anchor
+                hits = [i for i, l in enumerate(lines) if l.strip().startswith(anchor)
+                        or re.match(r"(pub(\([a-z]+\))? )?" + re.escape(anchor), l.strip())]
                 if len(hits) != 1:
                     raise LostAnchor("%s: anchor %r matches %d lines" % (f, anchor, len(hits)))
                 i = hits[0]
